@@ -535,12 +535,32 @@ class SocksRun(object):
                 return Blackhole()
             self.peer = SocksPeer(self)
             return self.peer
-        sim.net.listen('tcp', 9050, accept)
+        # TorClientEndpoint (what clientFromString("tor:...") and Tor.stream_via() build): with an explicit SOCKS endpoint,
+        # or guessing - nothing listens on 9050, so its fallback to 9150 carries the request
+        tce = (self.prop == 'C06' and self.req_type == 'CONNECT' and not self.unencodable and sim.params.get('cut') is None and
+               ch.chance(1, 5, 'torclientendpoint'))
+        self.guessing = tce and ch.chance(1, 2, 'guessport')
+        sim.net.listen('tcp', 9150 if self.guessing else 9050, accept)
         ep = TCP4ClientEndpoint(sim.reactor, '127.0.0.1', 9050)
         self.factory = AppFactory(self)
         reuse = (self.req_type == 'CONNECT' and not self.unencodable and sim.params.get('cut') is None and
                  ch.chance(1, 8, 'reuseendpoint'))
         try:
+            if tce:
+                from txtorcon.endpoints import TorClientEndpoint
+                host = self.host
+                if isinstance(host, str) and self.target_kind in ('host', 'ipv4') and ch.chance(1, 3, 'byteshost'):
+                    try:
+                        host = host.encode('ascii')     # a host handed over as bytes is the same host
+                        sim.probe('host-as-bytes')
+                    except UnicodeEncodeError:
+                        pass
+                sim.probe('api-tor-client-endpoint-guessing' if self.guessing else 'api-tor-client-endpoint')
+                if self.guessing:
+                    d = TorClientEndpoint(host, self.port, reactor=sim.reactor).connect(self.factory)
+                else:
+                    d = TorClientEndpoint(host, self.port, socks_endpoint=ep, reactor=sim.reactor).connect(self.factory)
+                raise _Started(d)
             if reuse:
                 # the endpoint object is used a second time, with another factory: the first use (towards a SOCKS
                 # port that never answers) must leave nothing behind on it
@@ -597,7 +617,7 @@ class SocksRun(object):
                     self.conn.cut_at = cut[0]
                     self.conn.on_cut = lambda kind=cut[1]: self.do_fault(kind)
                 # the greeting was written during makeConnection, before the hook existed
-                if self.prop == 'C06' and not self.unencodable and ch.chance(1, 4, 'bystander'):
+                if self.prop == 'C06' and not self.unencodable and not self.guessing and ch.chance(1, 4, 'bystander'):
                     # a second, overlapping request for the same host text with another port, through another SOCKS
                     # listener that never answers: requests must not influence each other
                     sim.probe('overlapping-request-same-host')
